@@ -273,9 +273,9 @@ C06_RampMoves(I, ev) ==
         stepMin == Abs(Val(I.pre.tgt) - Val(I.pre.cur)) \div Max(1, ev.pre.out_max)
         expected == stepMin * (n - 2)
     IN (n >= 4 /\ expected > 8 * (2 * EpsAt(I, S[n]) + Quant(I) + 4)) =>
-         LET first == Diff(S[2], S[1])
-             last  == Diff(S[n], S[n - 1])
-         IN Abs(first - Val(I.pre.tgt)) - Abs(last - Val(I.pre.tgt)) >= expected \div 2
+         \* measured from the spacing of the old ratio (a ramp planned for less than one frame arrives at once)
+         LET last == Diff(S[n], S[n - 1])
+         IN Abs(Val(I.pre.cur) - Val(I.pre.tgt)) - Abs(last - Val(I.pre.tgt)) >= expected \div 2
 
 \* ramped call: spacing moves monotonically from 1/old towards 1/new
 C06_RampMonotone(I, ev) ==
